@@ -222,7 +222,12 @@ def finish_mesh(draw, pts, faces, renumber=True):
         if draw(st.booleans()):
             rots = draw(st.lists(st.integers(0, 7), min_size=len(faces), max_size=len(faces)))
             faces = [f[r % len(f):] + f[: r % len(f)] for f, r in zip(faces, rots)]
-    return {"nodes": [[float(a), float(b)] for a, b in pts], "faces": [[int(i) for i in f] for f in faces]}
+    out = {"nodes": [[float(a), float(b)] for a, b in pts], "faces": [[int(i) for i in f] for f in faces]}
+    if renumber and draw(st.integers(0, 4)) == 0:
+        # memory layout in which build.grid_from_mesh hands the arrays to the library (Fortran order, transposed view,
+        # strided view): the same table, the same mesh
+        out["layout"] = draw(sampled_from(["F", "T", "strided"]))
+    return out
 
 
 # ----------------------------------------------------------------------------- Voronoi (MPAS-like)
@@ -573,6 +578,8 @@ def mesh_labels(mesh):
         labs.append("closed")
     if len(mesh["faces"]) == 1:
         labs.append("single-face")
+    if mesh.get("layout", "C") != "C":
+        labs.append("layout:" + mesh["layout"])
     nodes = mesh["nodes"]
     if any(abs(abs(p[1]) - 90.0) < 1e-12 for p in nodes):
         labs.append("pole-node")
